@@ -16,6 +16,7 @@ KIND_OF = {'po': Parameter.POSITIONAL_ONLY, 'pk': Parameter.POSITIONAL_OR_KEYWOR
 NAMES = ('ab', 'abd', 'c', 'xe', 'g5', 'h6')
 UNKNOWN = 'zz'            # a keyword name that is no parameter
 UNKNOWN_IDENT = 'q'       # an identifier that is no prefix of any parameter
+FRESH = '_yy'             # oracle only: a keyword name that no call text and no parameter uses
 DEFAULTS = ('1', "'s'", 'None', '(1, 2)', '2', '3')
 ANNOTS = ('int', 'str', 'bytes', 'float', 'bool', 'list')
 
@@ -402,12 +403,12 @@ class IndexOracle:
         elif cls == 's2':
             cands = [cur[1]]
         elif cls == 's3':
-            cands = [None] + self.names + [UNKNOWN]
+            cands = [None] + self.names + [FRESH]
         elif cls == 's4':
             frag = cur[1]
-            cands = [None] + [n for n in self.names if n.startswith(frag)] + [frag + '_' + UNKNOWN]
+            cands = [None] + [n for n in self.names if n.startswith(frag)] + [frag + FRESH]
         elif cls == 's6':
-            cands = self.names + [UNKNOWN]
+            cands = self.names + [FRESH]
         else:
             raise ValueError(cur)
         star = '*t' if cls == 's5' else '1'
